@@ -120,6 +120,8 @@ pub struct UnwindContext<'a> {
     fde: FrameDescriptionEntry<EndianArcSlice, usize>,
     debugee: &'a Debugee,
     cfa: RelocatedAddress,
+    /// True if the return address of this frame is undefined (no caller).
+    return_address_undefined: bool,
 }
 
 impl<'a> UnwindContext<'a> {
@@ -170,6 +172,12 @@ impl<'a> UnwindContext<'a> {
             Err(e) => return Err(e.into()),
         };
         let cfa = dwarf.evaluate_cfa(debugee, &registers_snap, row, ecx)?;
+
+        // an undefined return address rule marks the outermost frame (e.g. `_start`, `clone3`)
+        let return_address_register = fde.cie().return_address_register();
+        let return_address_undefined = row.registers().any(|(register, rule)| {
+            *register == return_address_register && matches!(rule, RegisterRule::Undefined)
+        });
 
         let mut lazy_evaluator = None;
         let evaluator_init_fn = || -> Result<ExpressionEvaluator, Error> {
@@ -239,6 +247,7 @@ impl<'a> UnwindContext<'a> {
             debugee,
             fde,
             cfa,
+            return_address_undefined,
         }))
     }
 
@@ -255,6 +264,9 @@ impl<'a> UnwindContext<'a> {
     }
 
     fn return_address(&self) -> Option<RelocatedAddress> {
+        if self.return_address_undefined {
+            return None;
+        }
         let register = self.fde.cie().return_address_register();
         self.registers
             .value(register)
